@@ -1307,6 +1307,52 @@ func genVerSwapCase(r *Rng, id string) *Case {
 	return g.finish(id)
 }
 
+// genVerCheckpointMetaCase: the first entry of the range the next checkpoint closes is the previous checkpoint entry; its
+// Extensions — the verifier's own metadata (magic, start index, sum) — are among the bytes the leader checksummed. One
+// node's store returns that entry with one bit of the start index or of the sum flipped (magic and length intact): the
+// node's report for the next range must carry a checksum mismatch and must not blame in-flight corruption.
+func genVerCheckpointMetaCase(r *Rng, id string) *Case {
+	g := &vgen{r: r, impl: &verImpl{nodes: map[uint64]*vnode{}}, tags: map[string]bool{"atrest-checkpoint-meta": true, "atrest-corruption": true}, truth: map[uint64]*raft.Log{},
+		last: map[uint64]uint64{}, first: map[uint64]uint64{}, dirty: map[uint64]map[uint64]string{}, term: 1}
+	defer g.impl.cleanup()
+	g.nn = 2
+	for n := uint64(0); n < g.nn; n++ {
+		g.do(fmt.Sprintf("node %d", n))
+	}
+	g.tLast = pick(r, []uint64{0, 5, 400})
+	catchUp := func(f uint64) {
+		for k := 0; k < 40 && g.last[f] < g.tLast; k++ {
+			g.replicate(f, false)
+		}
+	}
+	releaseAll := func() {
+		for n := uint64(0); n < g.nn; n++ {
+			for k := 0; k < 3; k++ {
+				g.do(fmt.Sprintf("release %d", n))
+			}
+		}
+	}
+	g.appendLeader(2+r.Intn(3), false)
+	g.appendLeader(1, true) // checkpoint 1: the last entry appended
+	cp1 := g.tLast
+	catchUp(1)
+	releaseAll()
+	g.appendLeader(2+r.Intn(4), false)
+	catchUp(1)
+	n := uint64(r.Intn(2))
+	if t := g.readStored(n, cp1); t != nil && len(t.Extensions) >= 24 {
+		c := cloneLog(t)
+		c.Extensions[8+r.Intn(len(c.Extensions)-8)] ^= 1 << uint(r.Intn(8))
+		g.do(fmt.Sprintf("corrupt %d %d %s", n, cp1, logTok(c)))
+		g.dirty[n] = map[uint64]string{cp1: "atrest"}
+		g.leaderRangeKnown = true
+	}
+	g.appendLeader(1, true) // checkpoint 2 closes [cp1, cp2)
+	catchUp(1)
+	releaseAll()
+	return g.finish(id)
+}
+
 func suiteVerifier(seed uint64, tier string) *Report {
 	rep := newReport("verifier", seed, tier)
 	rep.Rule = "multi-node histories (2–3 nodes) through the real verifier.LogStore over the real WAL: leader appends with checkpoints, replication of arbitrary slices in arbitrary batch splits, leadership changes that truncate conflicting suffixes, head truncations, middleware restarts, in-flight alterations of single fields, at-rest alterations returned by the store, foreign Extensions, a ReportFn the harness blocks and releases at chosen points; every delivered report (range, sums, error class, skipped range), every stored entry and the counters compared with Model.Verifier; plus single-entry checksums (field order / FNV-1a) via the `sum` op. Non-trivial = at least one of: corruption injected, leader change, truncation, restart, dropped/queued report; distinct by feature set, node count and length class."
@@ -1329,6 +1375,7 @@ func suiteVerifier(seed uint64, tier string) *Report {
 		cases = append(cases, genVerBoundaryCase(r.Fork(), fmt.Sprintf("ver-boundary-%d-%d", seed, i)))
 		cases = append(cases, genVerCompactionCase(r.Fork(), fmt.Sprintf("ver-compaction-%d-%d", seed, i)))
 		cases = append(cases, genVerSwapCase(r.Fork(), fmt.Sprintf("ver-swap-%d-%d", seed, i)))
+		cases = append(cases, genVerCheckpointMetaCase(r.Fork(), fmt.Sprintf("ver-cpmeta-%d-%d", seed, i)))
 	}
 	// single-entry checksum cases
 	sc := &Case{ID: fmt.Sprintf("ver-sum-%d", seed), Props: []string{"C16", "C17"}, Exec: execVerifier, NonTrivial: true, Shape: "sum"}
